@@ -120,19 +120,60 @@ class CallMixin:
         return arr
 
     def opq_attr(self, base, name, node):
+        """attribute of an opaque (external library) value, as declared in OPQ_MODELS[tag]:
+           'int' | 'bool' | 'str' | 'opq[:tag]'  -> uninterpreted function of the receiver
+           'method:<result spec>'                -> uninterpreted function of receiver and arguments (pure, X-NP)
+           'method!:<result spec>'               -> same, but the call is classified as MUTATING the receiver (C19 obligations)"""
         tag = base.x or 'any'
         spec = self.opq_models().get(tag, {}).get(name)
         if spec is None:
             raise Unsupported(f'attribute {name} of opaque {tag}')
-        if spec.startswith('method'):
+        if spec == 'method':
             return SV('func', FuncVal(builtin=f'opq:{tag}.{name}', bound=base, name=name))
-        f = self.ufunc(f'{tag}_{name}', OPQ, {'int': INT, 'bool': BOOL, 'opq': OPQ}[spec.split(':')[0]])
-        t = f(base.t)
-        if spec == 'int':
+        if spec.startswith('method'):
+            return SV('func', FuncVal(builtin=f'opqm:{tag}.{name}', bound=base, name=name))
+        return self.opq_result(f'{tag}_{name}', [base.t], spec)
+
+    def opq_result(self, fname, args, spec):
+        kind, _, rtag = spec.partition(':')
+        sort = {'int': INT, 'bool': BOOL, 'opq': OPQ, 'str': SEQ, 'bytes': SEQ}[kind]
+        f = self.ufunc(fname, *[a.sort() for a in args], sort)
+        t = f(*args)
+        if kind == 'int':
+            if rtag == 'nat':
+                self.assume(t >= 0)
             return VI(t)
-        if spec == 'bool':
+        if kind == 'bool':
             return VB(t)
-        return SV('opq', t, spec.split(':')[1] if ':' in spec else None)
+        if kind in ('str', 'bytes'):
+            return SV(kind, t)
+        return SV('opq', t, rtag or None)
+
+    def opq_call(self, recv, name, args, kw, node):
+        tag = recv.x or 'any'
+        spec = self.opq_models()[tag][name]
+        head, _, res = spec.partition(':')
+        argt = [recv.t]
+        for a in list(args) + [kw[k] for k in sorted(kw)]:
+            argt.append(self.opq_arg(a))
+        if head == 'method!':
+            self.on_mutating_call(recv, name, args, kw, node)
+        fname = f'{tag}_{name}' + ''.join('_' + k for k in sorted(kw))
+        return self.opq_result(fname, argt, res)
+
+    def opq_arg(self, a):
+        if a.k == 'slice':
+            lo, hi = a.t
+            f = self.ufunc('mk_slice', INT, INT, OPQ)
+            return f(self.as_int(lo) if lo.k != 'none' else z3.IntVal(-1000000007), self.as_int(hi) if hi.k != 'none' else z3.IntVal(-1000000007))
+        if a.k in ('int', 'bool'):
+            return self.as_int(a)
+        if a.k in ('str', 'bytes') or self._cseq(a):
+            return self.as_seq(a)
+        return self.as_opq(a)
+
+    def on_mutating_call(self, recv, name, args, kw, node):
+        self.oblige(f'no-mutation-of-caller-data[{name}]', z3.BoolVal(False), node, info=f'in-place operation {name} on a value that may alias caller data')
 
     def opq_models(self):
         return getattr(self, 'opq_model_table', {})
@@ -394,6 +435,8 @@ class CallMixin:
             decl = self.opq_models().get(tag, {}).get('__isinstance__')
             if decl is not None:
                 if tn in decl:
+                    if decl[tn] is None:        # not determined by the kind: e.g. a row slot is a numpy scalar or an ndarray
+                        return self.ufunc('isinstance_' + tn.replace('.', '_'), OPQ, BOOL)(v.t)
                     return z3.BoolVal(decl[tn])
                 return z3.BoolVal(False)
             raise Unsupported(f'isinstance of opaque {tag} against {tn}')
@@ -745,6 +788,12 @@ class CallMixin:
         if spec.startswith('tuple['):
             parts = split_top(spec[6:-1])
             return SV('tuple', tuple(self.fresh_of(p, f'{hint}_{i}') for i, p in enumerate(parts)))
+        if spec.startswith('dict{'):
+            d = {}
+            for part in split_top(spec[5:-1]):
+                k, _, vs = part.partition(':')
+                d[('c', k.strip())] = self.fresh_of(vs.strip(), f'{hint}_{k.strip()}')
+            return SV('dict', self.st.alloc(HDict(d)))
         if spec.startswith('items['):
             parts = split_top(spec[6:-1])
             return SV('list', self.st.alloc(HList([self.fresh_of(p_, f'{hint}_{i}') for i, p_ in enumerate(parts)])))
